@@ -16,7 +16,7 @@ ID = 'C06'
 RULE = ('Hypothesis experiment frames: n_pre 3..40, n_test 1..20, n_cool 0..10, 1-5 geos per group, optional unassigned '
         'geos (labels -1/0/7/NaN) and unassigned periods before/after, date gaps, three layouts (flat / geo index / date '
         'index), custom column names and group/period labels incl. the post-analysis colab layout, shuffled rows; '
-        'x use_cooldown x level in (0.01,0.99) x tails x threshold x rescale in (0,1000] x report in {last, all}. '
+        'x use_cooldown x level in (0.01,0.99) x tails x threshold x rescale in (0,1000] x report in {last, all}; in half of the cases the TBR object was first fitted to another frame and queried with rescale != 1. '
         'Non-trivial = n_pre >= 3 with positive residual variance and >= 1 analysed day; distinct by spec hash.')
 BUDGET = {'quick': 1280, 'thorough': 50000}
 FLOOR = {'quick': 500, 'thorough': 20000}
@@ -36,6 +36,7 @@ def _spec(draw):
       'rescale': draw(st.sampled_from([1.0, 1.0, 0.5, 0.01, 3.0, 1000.0])),
       'report': draw(st.sampled_from(['last', 'all'])),
       'time': draw(st.integers(-3, 25)),
+      'refit': draw(st.booleans()),
   }
 
 
@@ -77,7 +78,18 @@ def run(spec):
   det = {'n_pre': fs['n_pre'], 'n_an': n_an, 'level': spec['level'], 'tails': spec['tails'], 'rescale': spec['rescale'],
          'cooldown': spec['use_cooldown']}
   try:
-    m = fit_tbr(df, kwargs, target, spec['use_cooldown'])
+    if spec.get('refit'):
+      # 'refit' flavour: the model object has already analysed another frame (other totals, other shape) and been queried
+      other = dict(fs, n_pre=fs['n_pre'] + 2, factor=fs['factor'] + [3, -2], noise=[e + [5, -7] for e in fs['noise']], lift=fs['lift'] + 16)
+      df_o, kw_o, _ = frames.materialise(other)
+      m = fit_tbr(df_o, kw_o, target, spec['use_cooldown'])
+      m.summary(level=0.8, tails=2, rescale=0.25, report='all')
+      m.causal_cumulative_distribution(rescale=4.0)
+      m.fit(df, target, **kwargs)
+      m.summary(level=spec['level'], rescale=spec['rescale'] * 2, tails=spec['tails'])
+      cls.append('refit')
+    else:
+      m = fit_tbr(df, kwargs, target, spec['use_cooldown'])
     dist = m.causal_cumulative_distribution()
     loc = np.asarray(dist.kwds['loc'], float)
     sc = np.asarray(dist.kwds['scale'], float)
